@@ -160,6 +160,16 @@ pub fn plan_for(prop: &str, tier: Tier) -> Option<PropPlan> {
                 Plan { shape: Shape::History, groups: G_STACK, random: Some((hc, ho)), spec: spec("C11", OPS_C01 | OPS_C02 | ops(&[OP_CLONE, OP_CLONE_EMPTY, OP_DROP_NEW]), MON_MODEL | MON_NOALLOC | MON_CAP | MON_CLONE, 8) },
             ],
         }),
+        "C19" => Some(PropPlan {
+            rule: "stack-backend slice of the C01/C02/C11 case space, identical in both feature sets (driven by probes/c19.py, which compares the per-configuration digests)",
+            bound: format!("grid + exhaustive one-step and clone-then-step for every state up to capacity + proptest {} histories x <= {} ops on every stack configuration", hc, ho),
+            plans: vec![
+                Plan { shape: Shape::Grid, groups: G_GRID, random: None, spec: spec("C19", 0, MON_MODEL | MON_NOALLOC | MON_CAP, 8) },
+                Plan { shape: Shape::Step, groups: G_STACK, random: None, spec: spec("C19", OPS_C01 | OPS_C02 | ops(&[OP_CLONE, OP_CLONE_EMPTY]), MON_MODEL | MON_NOALLOC | MON_CAP | MON_CLONE | MON_OWN, 8) },
+                Plan { shape: Shape::CloneThen, groups: G_STACK, random: None, spec: spec("C19", OPS_C01, MON_MODEL | MON_NOALLOC | MON_CAP | MON_CLONE | MON_OWN, 8) },
+                Plan { shape: Shape::History, groups: G_STACK, random: Some((hc, ho)), spec: spec("C19", OPS_C01 | OPS_C02 | ops(&[OP_CLONE, OP_CLONE_EMPTY, OP_DROP_NEW]), MON_MODEL | MON_NOALLOC | MON_CAP | MON_CLONE | MON_OWN, 8) },
+            ],
+        }),
         "C12" => Some(PropPlan {
             rule: "case = ((len, capacity) state, every view: as_bytes/as_bytes_mut/spare_bytes_mut/typed as_ptr/as_slice/as_mut_slice/spare_capacity_mut compared by address arithmetic with base + len x size; k values written into spare capacity (typed or byte view) + set_len) | (vector value moved to every admissible offset of a 64-byte aligned arena, storage pointer alignment checked by integer arithmetic when empty and after each push); non-trivial = alignment>8, or size not in {0,8}, or 0<len<cap, or non-zero placement offset; distinct = distinct (configuration, pick sequence)",
             bound: format!("exhaustive for len<={} x capacity classes on all layouts and backends incl. over-aligned elements on inline backends; every offset in one 64-byte period", l),
